@@ -366,6 +366,7 @@ func extraC06(col *Collector, r *RNG, tier string) {
 		s, mp := newStreamer(m, h, 6, firstFile, 4)
 		res := runAttempt(s, m, h, mp, opts)
 		ok, note, key := true, "", ""
+		errTextMismatch := ""
 		desc := f.String()
 		if late {
 			desc += "+cancel-after-return"
@@ -407,6 +408,12 @@ func extraC06(col *Collector, r *RNG, tier string) {
 					if !strings.Contains(res.errorRet, want) {
 						fail("master-message-lost", fmt.Sprintf("Error() = %s does not carry the master's message %q", clip(res.errorRet, 160), f.msg))
 					}
+					// correspondence with the model of error.go + the driver's MySQLError text
+					if ans, err := theDriver.Ask(fmt.Sprintf("errpkt code=%d msg=%s", f.code, hx([]byte(want)))); err == nil {
+						if m := string(unhx(fields(ans)["model"])); "err:"+m != res.errorRet {
+							errTextMismatch = fmt.Sprintf("Error() text %q differs from the model's %q", clip(res.errorRet, 200), clip(m, 200))
+						}
+					}
 				}
 			}
 		case "close", "rst", "short", "badseq":
@@ -431,6 +438,9 @@ func extraC06(col *Collector, r *RNG, tier string) {
 			corr, model = c, line
 			if !c {
 				note = "observed outcome is not allowed by the protocol model: " + obs
+			}
+			if c && errTextMismatch != "" {
+				corr, note = false, errTextMismatch
 			}
 		}
 		col.AddScenario("cause-"+kind, desc+" # "+h.line(posStr(firstFile, 4)), true, ok, corr, note, key+":"+desc,
